@@ -103,6 +103,9 @@ C06/Proofs.vos C06/Proofs.vok C06/Proofs.required_vos: C06/Proofs.v Common/Ops.v
 C06/Properties.vo C06/Properties.glob C06/Properties.v.beautified C06/Properties.required_vo: C06/Properties.v Common/Ops.vo C06/Model.vo C06/Proofs.vo
 C06/Properties.vio: C06/Properties.v Common/Ops.vio C06/Model.vio C06/Proofs.vio
 C06/Properties.vos C06/Properties.vok C06/Properties.required_vos: C06/Properties.v Common/Ops.vos C06/Model.vos C06/Proofs.vos
+C06/SpecCorr.vo C06/SpecCorr.glob C06/SpecCorr.v.beautified C06/SpecCorr.required_vo: C06/SpecCorr.v Common/Ops.vo Common/Out.vo C06/Model.vo
+C06/SpecCorr.vio: C06/SpecCorr.v Common/Ops.vio Common/Out.vio C06/Model.vio
+C06/SpecCorr.vos C06/SpecCorr.vok C06/SpecCorr.required_vos: C06/SpecCorr.v Common/Ops.vos Common/Out.vos C06/Model.vos
 C07/Corr.vo C07/Corr.glob C07/Corr.v.beautified C07/Corr.required_vo: C07/Corr.v Common/Ops.vo Common/Vec.vo Common/Out.vo C07/Model.vo
 C07/Corr.vio: C07/Corr.v Common/Ops.vio Common/Vec.vio Common/Out.vio C07/Model.vio
 C07/Corr.vos C07/Corr.vok C07/Corr.required_vos: C07/Corr.v Common/Ops.vos Common/Vec.vos Common/Out.vos C07/Model.vos
